@@ -1059,25 +1059,39 @@ func (env *SpecEnv) evalCall(x *SExpr) Value {
 		if len(args) != len(sf.Params) {
 			specFail("%s: expected %d arguments", name, len(sf.Params))
 		}
-		if sf.Body != nil {
+		if sf.Body != nil && !env.e.isOpaque(name) {
 			c := &SpecEnv{e: env.e, st: env.st, vars: map[string]Value{}, view: env.view, old: env.old, pkg: env.pkg, trace: env.trace, oldTop: env.oldTop, oldNow: env.oldNow, what: env.what + "/" + name}
 			for i, p := range sf.Params {
 				c.vars[p.Name] = ev(i)
 			}
 			return c.eval(sf.Body)
 		}
-		// uninterpreted
+		// uninterpreted (one function symbol per leaf of the result type)
 		var as []Term
 		var sorts []Sort
 		for i := range args {
-			t := t1(i)
-			as = append(as, t)
-			sorts = append(sorts, t.Sort)
+			v := ev(i)
+			for _, l := range v.L {
+				as = append(as, l)
+				sorts = append(sorts, l.Sort)
+			}
 		}
 		rt := env.specType(sf.Result)
-		rs := sortOfSpecType(rt)
-		env.e.declareFun("sf."+name, sorts, rs)
-		return Value{T: rt, L: []Term{App(rs, "sf."+name, as...)}}
+		ls := flatten(rt)
+		out := Value{T: rt, L: make([]Term, len(ls))}
+		for k, l := range ls {
+			fname := "sf." + name
+			if len(ls) > 1 {
+				fname += "." + smtName(strings.TrimPrefix(l.Suffix, "#"))
+			}
+			if strings.HasSuffix(l.Suffix, "#off") {
+				out.L[k] = Zero
+				continue
+			}
+			env.e.declareFun(fname, sorts, l.Sort)
+			out.L[k] = App(l.Sort, fname, as...)
+		}
+		return out
 	}
 	// ghost predicate / function over refs: stored as heap array ghost:<name>
 	if g, ok := env.e.eng.specs.Ghosts[name]; ok && !g.IsField {
@@ -1437,4 +1451,19 @@ func topArgs(sexp string) []string {
 		i = j
 	}
 	return out
+}
+
+// isOpaque: spec functions named in the contract's `attr opaque = a, b` are kept
+// uninterpreted while verifying that function (the proof must not depend on
+// their definition; this keeps string theory out of quantified array proofs).
+func (e *Exec) isOpaque(name string) bool {
+	if e.top == nil || e.top.contract == nil {
+		return false
+	}
+	for _, n := range strings.Split(e.top.contract.Attrs["opaque"], ",") {
+		if strings.TrimSpace(n) == name {
+			return true
+		}
+	}
+	return false
 }
